@@ -84,6 +84,8 @@ def as_cmp(e):
     if e[0] == "not":
         cm = as_cmp(e[1])
         return (NEG[cm[0]], cm[1], cm[2]) if cm else None
+    if e[0] == "isvar":
+        return ("Eq", e[1], ("agg", e[3], e[4], ()))
     cm = None
     if e[0] == "bin" and e[1] in SWAP:
         cm = (e[1], e[2], e[3])
@@ -131,14 +133,20 @@ def calls_matching(body, pred):
     return [(bi, t) for bi, t in body.calls() if pred(callee_name(t), callee_path(t))]
 
 
-def ret_assignments(body):
-    """(bb, idx, expr) of every assignment to the return place _0 (incl. call destinations)"""
+def ret_assignments(body, eta=False):
+    """(bb, idx, expr) of every assignment to the return place _0 (incl. call destinations).  A tail call returning a Result/Option is
+    analysed in η-expanded form (inline.eta_expand_tail_results); with eta=False it is reported as what the source says — one assignment of
+    the call's result — with eta=True as its two outcome blocks."""
     out = []
     for bi, si, s in body.iter_stmts():
         if s["k"] == "assign" and s["place"]["l"] == 0 and not s["place"]["p"]:
+            if body.blocks[bi].get("eta") and not eta:
+                continue
             out.append((bi, si, body.rec_rvalue(s["rv"], bi, si)))
     for bi, t in body.calls():
         if t["dest"]["l"] == 0 and not t["dest"]["p"]:
+            out.append((bi, "T", body.rec_call(t, bi)))
+        elif not eta and t.get("target") is not None and body.blocks[t["target"]].get("eta") and body.blocks[t["target"]]["term"]["k"] == "switch":
             out.append((bi, "T", body.rec_call(t, bi)))
     return out
 
@@ -146,7 +154,7 @@ def ret_assignments(body):
 def result_blocks(body):
     """blocks that build the function result: {'Ok': [...], 'Err': [...], 'Some': [...], 'None': [...], 'other': [...]}"""
     out = {"Ok": [], "Err": [], "Some": [], "None": [], "other": []}
-    for bi, si, e in ret_assignments(body):
+    for bi, si, e in ret_assignments(body, eta=True):
         if e[0] == "agg" and e[2] in out:
             out[e[2]].append((bi, e))
         elif e[0] == "call" and e[1].endswith("from_residual"):
@@ -771,9 +779,46 @@ def pick_atoms(body, want):
     return out
 
 
+LOCAL_ENUM_PREFIXES = ("melstructs::", "melstf::", "melvm::", "tip911_stakeset::")
+
+
+def variant_atoms(body):
+    """`matches!(x, E::V)` / `match x { E::V => .. }` on an enum of the code base: a switch on x's discriminant.  Each explicit arm is the atom
+    `x == E::V` (expr ('isvar', x, index, enum, variant)); forcing it to 1 takes that arm, to 0 excludes it."""
+    out = []
+    prog = body.prog
+    for bi, t in body.iter_terms("switch"):
+        op = t["discr"]
+        if op.get("k") not in ("move", "copy") or op["place"]["p"]:
+            continue
+        ds = body.defs().get(op["place"]["l"], [])
+        if len(ds) != 1 or ds[0][1] == "T":
+            continue
+        st = body.blocks[ds[0][0]]["stmts"][ds[0][1]]
+        if st["rv"].get("k") != "discr":
+            continue
+        ty = body._place_type(st["rv"]["place"]) or ""
+        ty = ty.lstrip("&").replace("mut ", "")
+        adt = prog.adts.get(mir.norm_name(ty))
+        if not adt or not ty.startswith(LOCAL_ENUM_PREFIXES) or len(adt.get("variants", [])) < 2:
+            continue
+        x = body.rec_place(st["rv"]["place"], ds[0][0], ds[0][1])
+        names = [v["name"] for v in adt["variants"]]
+        for val, tgt in t["targets"]:
+            i = int(val)
+            if 0 <= i < len(names) and len(t["targets"]) <= 3:
+                e = ("isvar", x, i, mir.norm_name(ty), names[i])
+                out.append((e, canon_cmp("Eq", x, ("agg", mir.norm_name(ty), names[i], ())), bi))
+    return out
+
+
 def _cmp_atoms(body):
     out = []
     seen = set()
+    for a in variant_atoms(body):
+        if a[0] not in seen:
+            seen.add(a[0])
+            out.append(a)
     for bi, si, s in body.iter_stmts():
         if s["k"] == "assign" and s["rv"]["k"] == "bin" and not s["exp"]:
             e = body.rec_rvalue(s["rv"], bi, si)
